@@ -152,6 +152,12 @@ def main(tier: str) -> int:
     for cn in ("SelfCGA", "SelfCGP"):
         sid += 1
         runs.append((cn, dict(pop_size=12, iters=8 if cn.endswith("GA") else 6, objective="offset6", elitism=False, seed=chk.seed * 100 + sid, keep_history=True)))
+    # an objective that returns an INTEGER array (counts): the group means are still fractions
+    for cn in ("SelfCGA", "SelfCGP"):
+        for mn in (False, True):
+            sid += 1
+            runs.append((cn, dict(pop_size=24 if cn.endswith("GA") else 14, iters=10 if cn.endswith("GA") else 6, objective="int", elitism=False, minimization=mn,
+                                  seed=chk.seed * 100 + sid, keep_history=True)))
     # distinct floors per operator kind, long enough for a losing operator to reach its floor
     for cn in ("SelfCGA", "SelfCGP"):
         sid += 1
